@@ -223,7 +223,7 @@ def powers_of(values):
 
 
 def make_orificing(values, n_groups, cutoff=0.05, delta=0.001, opt='peak coolant temp',
-                   dp_limit=None, rtol=(0.05, 0.05), regroup='never'):
+                   dp_limit=None, rtol=(0.05, 0.05), regroup='never', pscale=1.0):
     """Orificing instance without the input file / reactor machinery: exactly
     the attributes that Orificing.__init__ sets, plus a `_get_power` stub that
     publishes the generated powers the way the real one does."""
@@ -247,7 +247,8 @@ def make_orificing(values, n_groups, cutoff=0.05, delta=0.001, opt='peak coolant
         o._opt_keys, o._opt_col = ('cool', None), 5
     else:
         o._opt_keys, o._opt_col = ('pin', 'fuel_cl'), 10
-    pw = powers_of(values)
+    # pscale: the same powers written in another unit (1e-6: MW) - grouping is scale free
+    pw = [p * pscale for p in powers_of(values)]
     ids = np.arange(len(pw), dtype=float)
     # keep the text of error messages (logging is silenced); the real log()
     # still runs and still exits
@@ -419,6 +420,16 @@ def cases_a(tier):
             for (c, d) in pairs:
                 out.append({'values': vals, 'n': len(vals), 'n_groups': k,
                             'cutoff': c, 'delta': d, 'opt': 'peak coolant temp'})
+            # the same powers written in MW (values of the order 0.1 ... 0.4)
+            if tier == 'thorough' or len(vals) <= 4:
+                out.append({'values': vals, 'n': len(vals), 'n_groups': k, 'cutoff': pairs[0][0], 'delta': pairs[0][1],
+                            'opt': 'peak coolant temp', 'pscale': 1.0e-6})
+                if len(vals) > 2:
+                    # neither ascending nor descending in assembly id (watts and megawatts)
+                    rot = vals[1:] + vals[:1]
+                    for ps in (1.0, 1.0e-6):
+                        out.append({'values': rot, 'n': len(vals), 'n_groups': k, 'cutoff': pairs[0][0],
+                                    'delta': pairs[0][1], 'opt': 'peak coolant temp', 'pscale': ps})
             # the other branch of group_by_power (grouping by linear power)
             if tier == 'thorough' or len(vals) <= 3:
                 out.append({'values': vals, 'n': len(vals), 'n_groups': k,
@@ -434,7 +445,7 @@ def run_group(c):
     vals, k = c['values'], c['n_groups']
     n = len(vals)
     opt = c.get('opt', 'peak coolant temp')
-    o = make_orificing(vals, k, c['cutoff'], c['delta'], opt=opt)
+    o = make_orificing(vals, k, c['cutoff'], c['delta'], opt=opt, pscale=c.get('pscale', 1.0))
     # progress monitor: the sweep compares N-1 neighbours per iteration and the
     # code promises at most ITER_CAP iterations
     from dassh.orificing import Orificing
@@ -471,7 +482,8 @@ def run_group(c):
         return r
     r['transitions'] = calls[0]
     gd = np.asarray(o.group_data, dtype=float)
-    expect = powers_of(vals) if opt == 'peak coolant temp' else [p / 100.0 for p in powers_of(vals)]
+    pw_in = [p * c.get('pscale', 1.0) for p in powers_of(vals)]
+    expect = pw_in if opt == 'peak coolant temp' else [p / 100.0 for p in pw_in]
     # every assembly exactly once, with its own parameter, in id order
     if gd.shape != (n, 3) or [float(x) for x in gd[:, 0]] != [float(i) for i in range(n)] \
             or [float(x) for x in gd[:, 1]] != expect:
